@@ -567,8 +567,10 @@ theorem top_no_ub_from_start (start : XOp) (hstart : start.isNew = true) (ops : 
   xrun_from_start extractedTop_trepaired start hstart ops h
 
 /-- **lifetime invariant of the layer**, spelled out on the state: (a) the terminal's binding list holds the root
-    window's handlers only while the root window lives; (b) while the toplevel instance lives the terminal it refers
-    to is alive, and the instance's count is the number of references the application holds; (c) a destroyed instance
+    window's handlers only while the root window lives; (b) while the toplevel instance lives the terminal and the root
+    window it refers to are alive (the root window's count is exactly the application's references plus the
+    instance's: no operation and no handler can take the instance's reference away), and the instance's count is the
+    number of references the application holds; (c) a destroyed instance
     has no watch left and nobody refers to it; (d) a terminal the application still refers to has not been freed;
     (e) the lower layers' invariant holds with the instance's two references accounted for: the terminal's count is
     the application's references plus the instance's plus one for a live root window. -/
@@ -576,7 +578,7 @@ theorem top_lifetime_inv (start : XOp) (hstart : start.isNew = true) (ops : List
     ∃ top, xrunOps extractedTop {} (start :: ops) = .ok top ∧
       (∀ b ∈ top.tbinds, b.isApp = false → rootAlive top.st = true) ∧
       (∀ i, top.inst = some i → i.freed = false → top.st.term.freed = false ∧ 1 ≤ top.st.term.refcount ∧
-        1 ≤ i.refcount ∧ i.refcount = (i.appRefs : Int)) ∧
+        rootAlive top.st = true ∧ 1 ≤ i.refcount ∧ i.refcount = (i.appRefs : Int)) ∧
       (∀ i, top.inst = some i → i.freed = true → i.laters = [] ∧ i.timers = [] ∧ i.appRefs = 0) ∧
       (top.st.term.freed = true → top.st.term.appRefs = 0) ∧
       (top.st.term.freed = false → (∃ r, LiveW top.st.tree 0 r) →
